@@ -38,7 +38,8 @@ func (c19) Meta() fw.Meta {
 			"exact meaning: every string over {0-9 s m h d w y : , + - space} up to length 4 (thorough: 5) plus boundary numerals (2147483647s, 2147483648s, 35791394m, 35791395m, leading zeros, 40-digit numerals) is fed to ParseDuration/ParseArchiveInfo/ParseArchiveInfoList; " +
 			"timestamps: the 20-character layout with each field at min/max/overflow, pre-1970 and post-2106 dates, lower-case z, offsets. Oracle: accepted => value equals the independently computed arithmetic meaning (big integers / days-from-civil) and fits the type; " +
 			"must-reject classes (empty, no/unknown/doubled unit, sign, retention not a multiple of its step, meaning > 2^31-1, instants outside [0,2^32)) must be rejected. " +
-			"non-trivial = shard containing accepted and rejected strings and at least 1000 round trips; distinct by shard.",
+			"non-trivial = shard containing accepted and rejected strings and at least 1000 round trips; distinct by shard." +
+			" The CLI sample also runs view and sum against a recording stub server and parses from/until/now/retention back out of the request.",
 		Assumptions: []string{
 			"strings in neither class (redundant leading zeros; fractional seconds, which the Go time parser accepts after the seconds field) are not judged for acceptance, only for the returned value when accepted",
 			"CLI flag value types are unexported; they are sampled through the real binary (printed method names, retention lists and timestamps must be accepted with their meaning, malformed/out-of-range ones rejected) and exercised further by C12/C16",
